@@ -103,6 +103,9 @@ type rtCtr struct {
 	LaterCfgs []*vhConfig
 	// CPU requests of UpdateContainer calls that the plugin refused
 	FailedReqs []int64
+	// resources at creation and before the last accepted update (updates may return to them)
+	CreateSpec hcCtrSpec
+	PrevSpec   *hcCtrSpec
 }
 
 type rtPod struct {
@@ -504,6 +507,7 @@ func (e *executor) exec(op hcOp) *stepResult {
 			c.ReqMilli = 0
 		}
 		c.CreateMilli = c.ReqMilli
+		c.CreateSpec = spec
 		m.ctrs[id] = c
 		nc := m.nriCtr(c)
 		nc.State = api.ContainerState_CONTAINER_UNKNOWN // not created yet from the runtime's view
@@ -549,8 +553,14 @@ func (e *executor) exec(op hcOp) *stepResult {
 		}
 		pod := m.pods[c.Pod]
 		spec := c.Spec
-		if op.Ctr != nil { // B == 0: identical resources
+		switch {
+		case op.Ctr != nil:
 			spec.MilliCPU, spec.LimitCPU, spec.MemLimit = op.Ctr.MilliCPU, op.Ctr.LimitCPU, op.Ctr.MemLimit
+		case op.B == 2: // back to the creation-time resources
+			spec.MilliCPU, spec.LimitCPU, spec.MemLimit = c.CreateSpec.MilliCPU, c.CreateSpec.LimitCPU, c.CreateSpec.MemLimit
+		case op.B == 3 && c.PrevSpec != nil: // back to the resources before the last update
+			spec.MilliCPU, spec.LimitCPU, spec.MemLimit = c.PrevSpec.MilliCPU, c.PrevSpec.LimitCPU, c.PrevSpec.MemLimit
+		default: // identical resources
 		}
 		nr := kubeletResources(pod.Spec.QoS, &spec)
 		res := &api.LinuxResources{Cpu: &api.LinuxCPU{}, Memory: &api.LinuxMemory{}}
@@ -576,6 +586,8 @@ func (e *executor) exec(op hcOp) *stepResult {
 		}
 		if r.Err == nil {
 			// the runtime applies the kubelet's values (unless the plugin overrides them in its reply)
+			prev := c.Spec
+			c.PrevSpec = &prev
 			c.Spec = spec
 			// an update re-allocates unless the plugin considers the resources identical
 			c.LaterCfgs = append(c.LaterCfgs, e.cfg)
